@@ -552,6 +552,9 @@ func zzHs13Judge(sc *zzA13Scenario) {
 func zzHs13ClientFlight() {
 	callbacks := zzsymChoice("callbacks", 2) == 1
 	sc := zzA13Build(true, zzsymChoice("server_sets_insecure_skip_verify", 2) == 1, callbacks) // InsecureSkipVerify is a client option: it must not switch off a server's ClientCAs check
+	if zzsymChoice("client_cas_unset", 2) == 1 {
+		sc.cfg.ClientCAs = nil // no pool configured means "the host's roots", not "skip the chain check"
+	}
 	switch zzsymChoice("cert", 3) {
 	case 1:
 		zzA13Push(sc, zzA13CertEmpty)
